@@ -457,6 +457,18 @@ func (o *c03Obs) predict(w *wWorld, s *wStep) (accept bool, decided bool, why st
 func (o *c03Obs) After(w *wWorld, st *wStep) *kit.Viol {
 	defer o.att.update(w, st)
 	defer o.noteTaint(st)
+	if st.Op.K == "tick" {
+		// Time passes and nobody asks for anything: an attached session stays attached. (A topic which
+		// is unloaded by its idle timer has no sessions; the one session which attaches at that very
+		// moment is told in the step of its own request, not here.)
+		for sess, frames := range st.Frames {
+			for _, f := range frames {
+				if _, was := o.preAtt[sess][w.routeOfName(f.topicOf(), w.sess[sess].user)]; f.Ctrl != nil && f.Ctrl.Code == 205 && was {
+					return kit.V("attached-session-evicted-by-idle-timer", "while %d ms passed without any request session %d was detached from %s (%s): its publishes will be refused although it attached and never left", st.Op.N, sess, f.Ctrl.Topic, wJSON(f))
+				}
+			}
+		}
+	}
 	if st.Op.K != "pub" || st.Skipped {
 		return nil
 	}
@@ -857,4 +869,12 @@ func TestC02Delivery(t *testing.T) {
 	r := kit.Begin("C02", "TestC02Delivery")
 	defer r.Flush()
 	kit.CheckRun(t, r, c02Gen, c02Exec(t, r))
+}
+
+// topicOf: the topic a {ctrl} is about.
+func (m *ServerComMessage) topicOf() string {
+	if m != nil && m.Ctrl != nil {
+		return m.Ctrl.Topic
+	}
+	return ""
 }
